@@ -321,24 +321,30 @@ func codecCase(rep *Report, s *glue.Subject, d MD, idx int) {
 	}
 
 	// --- C02: deterministic bytes
-	var detB []byte
+	var detB, plainB []byte
+	marshalOK := true
 	pan, pmsg = safely(func() { detB, err = detOpts.Marshal(S) })
 	if pan || err != nil {
 		rep.Violate("C01", "codec/marshal-det/fails", tn, fmt.Sprintf("deterministic Marshal failed: err=%v %s", err, pmsg), rc)
-		return
-	}
-	if !bytes.Equal(detB, exp) {
+		rep.Violate("C04", "codec/marshal-det/fails", tn, fmt.Sprintf("deterministic Marshal failed (Size/Marshal disagree?): err=%v %s", err, pmsg), rc)
+		marshalOK = false
+	} else if !bytes.Equal(detB, exp) {
 		rep.Violate("C02", "codec/det-bytes", tn, "deterministic bytes differ from reference (dynamicpb = spec encoder): "+firstDiff(detB, exp), rc)
 	}
 
 	// --- C01: both modes round trip
-	var plainB []byte
-	pan, pmsg = safely(func() { plainB, err = plainOpts.Marshal(S) })
-	if pan || err != nil {
-		rep.Violate("C01", "codec/marshal/fails", tn, fmt.Sprintf("Marshal failed: err=%v %s", err, pmsg), rc)
-		return
+	if marshalOK {
+		pan, pmsg = safely(func() { plainB, err = plainOpts.Marshal(S) })
+		if pan || err != nil {
+			rep.Violate("C01", "codec/marshal/fails", tn, fmt.Sprintf("Marshal failed: err=%v %s", err, pmsg), rc)
+			rep.Violate("C04", "codec/marshal/fails", tn, fmt.Sprintf("Marshal failed: err=%v %s", err, pmsg), rc)
+			marshalOK = false
+		}
 	}
 	for mi, b := range [][]byte{plainB, detB} {
+		if !marshalOK {
+			break
+		}
 		mode := []string{"plain", "det"}[mi]
 		// (a) the bytes are a valid encoding of the value (independent decoder)
 		dec, derr := SpecDecode(d, b, SpecOpts{})
@@ -472,7 +478,7 @@ func codecCase(rep *Report, s *glue.Subject, d MD, idx int) {
 
 	// --- C05
 	nm, maxEnt := hasMaps(v)
-	if nm > 0 {
+	if nm > 0 && marshalOK {
 		h, reps := 3, 4
 		if *flagTier == "thorough" {
 			h, reps = 6, 16
